@@ -362,6 +362,8 @@ class ScriptServer:
                 conn.close()
                 return
             conn.send(response_bytes(rep))
+            if b'\r\nconnection: close\r\n' in self.script.log[-1][2].lower() if self.script.log else False:
+                conn.close()        # the client asked for it (--ignore-length reads the body up to the close)
 
 
 class NamedResolver(fakenet.FakeResolver):
